@@ -44,6 +44,15 @@ Theorem c13_render_canonical_form : forall d : dec, canonical_text (render d).
 Proof. exact render_canonical_text. Qed.
 Print Assumptions c13_render_canonical_form.
 
+(* "=" with a text operand: the text is compared as written, so a number equals a text that reads as a number
+   exactly when the text is the canonical rendering of a numerically equal number (1 = "1", not 1 = "1.0").
+   Scope of the "=" clause here: number x number and number x text; two datetimes are "=" iff their ISO renderings
+   are the same text (one instant shown in two zones is not "="), which is definitional and not a theorem. *)
+Theorem c13_equal_number_text : forall (a : dec) (s : text) (d : dec), parse_number s = Some d ->
+  (equal_num_text a s = true <-> s = render d /\ dec_eq a d).
+Proof. exact equal_num_text_spec. Qed.
+Print Assumptions c13_equal_number_text.
+
 (* ================================================================================================ *)
 (* datetimes, dates, times.  An instant is a number of nanoseconds since the unix epoch; a time zone is ANY function
    [offset] from unix seconds to the UTC offset (seconds) in force (universally quantified: no zone data is assumed).
@@ -133,6 +142,34 @@ Theorem c13_envformat_localized_refuted :
 Proof. exact localized_witness. Qed.
 Print Assumptions c13_envformat_localized_refuted.
 
+(* the re-read INSTANT: when both zone lookups of time.Date (at the rendered local time read as UTC, and one offset
+   earlier) see the offset in force at t - i.e. the rendered local time lies neither in a gap nor in a repeated
+   hour of the zone, nor within one offset's distance of such a transition - the result is t with exactly the
+   unrendered part (nanoseconds, and the seconds for tt:mm and h:mm aa) removed.  Partial: missing are local
+   times that occur twice (refuted below) and gaps (refuted above). *)
+Theorem c13_envformat_instant_partial : forall (offset : Z -> Z) (e : env) (t c : Z),
+  std_markers e -> in_year_range (f_year (fields_of offset t)) ->
+  let f := fields_of offset t in
+  let w := wall_of (f_year f) (f_month f) (f_day f) (f_hour f) (f_min f) (secs_of (e_tf e) (f_sec f)) in
+  offset (unix_of t) = c -> offset w = c -> offset (w - c) = c ->
+  datetime_from_string offset e (format_datetime offset e t)
+  = Some ((unix_of t - (f_sec f - secs_of (e_tf e) (f_sec f))) * giga).
+Proof. exact (format_datetime_instant_with (Tod 0 0 0 0)). Qed.
+Print Assumptions c13_envformat_instant_partial.
+
+(* refuted in a repeated hour: zone +2h until unix 10^9 then +1h, YYYY-MM-DD tt:mm:ss (no precision lost): the
+   earlier 2001-09-09 03:36:40 is written without its offset and read back as the later 03:36:40, 3600 s on,
+   although time.Date "resolves" and all wall-clock fields agree
+   (KNOWN_FINDINGS: envformat-datetime-roundtrip:repeated-hour-resolved-to-other-instant) *)
+Theorem c13_envformat_instant_refuted : exists (offset : Z -> Z) (e : env) (t : Z),
+  std_markers e /\ in_year_range (f_year (fields_of offset t))
+  /\ (let f := fields_of offset t in
+      resolves offset (wall_of (f_year f) (f_month f) (f_day f) (f_hour f) (f_min f) (secs_of (e_tf e) (f_sec f))))
+  /\ datetime_from_string offset e (format_datetime offset e t) = Some (t + 3600 * giga)
+  /\ fields_of offset (t + 3600 * giga) = fields_of offset t.
+Proof. exact (ex_intro _ fold_zone (ex_intro _ fold_env (ex_intro _ fold_instant fold_witness))). Qed.
+Print Assumptions c13_envformat_instant_refuted.
+
 (* dates: Render (YYYY-MM-DD, whatever the environment) and Format(env) both read back as the same date *)
 Theorem c13_date_roundtrip : forall (e : env) (y m d : Z), valid_date y m d = true -> in_year_range y ->
   date_from_string e (render_date (y, m, d)) = Some (y, m, d)
@@ -186,3 +223,29 @@ Print Assumptions c13_json_number_out_of_range.
 Theorem c13_jequiv_refl : forall j : json, jequiv j j.
 Proof. exact jequiv_refl. Qed.
 Print Assumptions c13_jequiv_refl.
+
+(* ================================================================================================ *)
+(* stored field values (flows/field.go FieldValues.Parse keeps the text and, beside it, the number and the datetime
+   the text reads as; the datetime is read with fillTime = true: [fill] is ANY current time of day).  The text form
+   of a number stores that number; the ISO and environment-format texts of a datetime store the same instants as
+   the ToXDateTime theorems above give, whatever the current time. *)
+Theorem c13_field_number : forall (fill : tod) (offset : Z -> Z) (e : env) (d : dec), (int32_min <= dexp d)%Z ->
+  exists d' dt, field_parse fill offset e (render d) = Some (Some d', dt) /\ dec_eq d' d.
+Proof. exact field_parse_number. Qed.
+Print Assumptions c13_field_number.
+
+Theorem c13_field_datetime : forall (fill : tod) (offset offset' : Z -> Z) (e : env) (t : Z),
+  in_year_range (f_year (fields_of offset t)) -> -86400 < offset (unix_of t) < 86400 ->
+  (exists n, field_parse fill offset' e (iso offset t)
+             = Some (n, Some (t - t mod 1000 + (offset (unix_of t) - 60 * Z.quot (offset (unix_of t)) 60) * giga)))
+  /\ (std_markers e ->
+      let f := fields_of offset t in
+      exists n, field_parse fill offset e (format_datetime offset e t)
+                = Some (n, Some (from_wall offset (wall_of (f_year f) (f_month f) (f_day f) (f_hour f) (f_min f)
+                                                           (secs_of (e_tf e) (f_sec f))) * giga))).
+Proof.
+  exact (fun fill offset offset' e t Hy Hoff =>
+           conj (field_parse_iso fill offset offset' e t Hy Hoff)
+                (fun Hm => field_parse_format fill offset e t Hm Hy)).
+Qed.
+Print Assumptions c13_field_datetime.
